@@ -3,6 +3,7 @@
 // binding allocates, so one slot too many is an ASan report) and evaluates the scheme's pairing equations
 // on the resulting objects.  One answer line per command.
 #include "common.h"
+#include "x86base.h"
 
 #include "wkdibe/wkdibe.h"
 #include "wkdibe/api.hpp"
@@ -177,6 +178,35 @@ static void cmd_setup(void) {
     printf(" l=%d sig=%d msk=%d pairing=%d gens=%d hsig=%d", pp.l, (int) pp.signatures, (int) gt_is_one(e1), (int) Fq12::equal(e2, pp.pairing), (int) gens, (int) hsig_ok);
 }
 
+// Whenever the driver needs precompute(list) as an INPUT to another operation it obtains it by one of three routes, in turn: directly;
+// precompute(another list) adjusted to the list; precompute(list) adjusted away and back.  A Precomputed value is the same group element
+// whichever route produced it, so every consumer (encrypt_precomputed, sign_precomputed, verify_precomputed, resamplekey) must behave the same.
+static unsigned g_route;
+static void get_precomputed(embedded_pairing_wkdibe_precomputed_t* pre, int pid, AList& al) {
+    unsigned route = g_route++ % 3;
+    if (route == 0 || al.is_null) { embedded_pairing_wkdibe_precompute(pre, &P[pid].p, LP(al)); return; }
+    // the "other" list: every value + 1, first entry dropped when there are several, flags kept; for an empty list one entry at slot 0
+    AList o; o.is_null = false; memset(&o.list, 0, sizeof o.list);
+    size_t n = al.list.length;
+    size_t on = n > 1 ? n - 1 : (n == 1 ? 1 : (P[pid].p.l > 0 ? 1 : 0));
+    o.heap = on ? (embedded_pairing_wkdibe_attribute_t*) malloc(sizeof(embedded_pairing_wkdibe_attribute_t) * on) : NULL;
+    o.list.attrs = o.heap; o.list.length = on; o.list.omitAllFromKeysUnlessPresent = al.list.omitAllFromKeysUnlessPresent;
+    for (size_t i = 0; i < on; i++) {
+        if (n == 0) { memset(&o.heap[i], 0, sizeof o.heap[i]); o.heap[i].idx = 0; ((uint8_t*) &o.heap[i].id)[0] = 5; continue; }
+        o.heap[i] = al.heap[n > 1 ? i + 1 : i];
+        uint8_t* b = (uint8_t*) &o.heap[i].id; for (int k = 0; k < 32; k++) { if (++b[k] != 0) break; }
+    }
+    if (route == 1) {
+        embedded_pairing_wkdibe_precompute(pre, &P[pid].p, LP(o));
+        embedded_pairing_wkdibe_adjust_precomputed(pre, &P[pid].p, LP(o), LP(al));
+    } else {
+        embedded_pairing_wkdibe_precompute(pre, &P[pid].p, LP(al));
+        embedded_pairing_wkdibe_adjust_precomputed(pre, &P[pid].p, LP(al), LP(o));
+        embedded_pairing_wkdibe_adjust_precomputed(pre, &P[pid].p, LP(o), LP(al));
+    }
+    free(o.heap);
+}
+
 static void cmd_keyop(const char* op) {
     // keygen|ndkeygen kid pid alloc alist seed ; qualify|ndqualify kid pid parent alloc alist seed
     int kid = (int) argi(1), pid = (int) argi(2);
@@ -218,7 +248,7 @@ static void cmd_resample(void) {
     AList al; parse_alist(arg(5), al);
     rng_seed(strtoull(arg(6), NULL, 10));
     embedded_pairing_wkdibe_precomputed_t pre;
-    embedded_pairing_wkdibe_precompute(&pre, &P[pid].p, LP(al));
+    get_precomputed(&pre, pid, al);
     alloc_b(kid, further ? K[src].k.l : 0);
     embedded_pairing_wkdibe_resamplekey(&K[kid].k, &P[pid].p, &pre, &K[src].k, further != 0, rng_cb);
     printf(" l=%d alloc=%d overflow=%d a1same=%d", K[kid].k.l, K[kid].alloc, (int) (K[kid].k.l > K[kid].alloc), (int) G2::equal(SK(kid).a1, SK(src).a1));
@@ -288,7 +318,7 @@ static void cmd_dec(void) {
     embedded_pairing_wkdibe_ciphertext_t ct;
     if (mod >= 10) {
         embedded_pairing_wkdibe_precomputed_t pre;
-        embedded_pairing_wkdibe_precompute(&pre, &P[pid].p, LP(al));
+        get_precomputed(&pre, pid, al);
         embedded_pairing_wkdibe_encrypt_precomputed(&ct, (embedded_pairing_wkdibe_gt_t*) &m, &P[pid].p, &pre, rng_cb);
         mod -= 10;
     } else {
@@ -324,7 +354,7 @@ static void cmd_sign(void) {
     } else {
         AList pl; parse_alist(arg(8), pl);
         embedded_pairing_wkdibe_precomputed_t pre;
-        embedded_pairing_wkdibe_precompute(&pre, &P[pid].p, LP(pl));
+        get_precomputed(&pre, pid, pl);
         embedded_pairing_wkdibe_sign_precomputed(&S[sid], &P[pid].p, &K[kid].k, LP(al), &pre, &msg, rng_cb);
         free_alist(pl);
     }
@@ -340,7 +370,7 @@ static void cmd_verify(void) {
     embedded_pairing_wkdibe_scalar_t msg; unhex(arg(4), &msg, 32);
     bool v1 = embedded_pairing_wkdibe_verify(&P[pid].p, LP(al), &S[sid], &msg);
     embedded_pairing_wkdibe_precomputed_t pre;
-    embedded_pairing_wkdibe_precompute(&pre, &P[pid].p, LP(al));
+    get_precomputed(&pre, pid, al);
     bool v2 = embedded_pairing_wkdibe_verify_precomputed(&P[pid].p, &pre, &S[sid], &msg);
     wk::Params& pp = PP(pid);
     wk::Signature& s = *reinterpret_cast<wk::Signature*>(&S[sid]);
@@ -434,6 +464,7 @@ int main(int argc, char** argv) {
     static char outbuf[1 << 16];
     setvbuf(stdout, outbuf, _IOFBF, sizeof outbuf);
     verif_install_death_flush();
+    verif_x86base_option(argc, argv);
     while (read_line(stdin)) {
         if (g_ntok == 0) { printf("\n"); continue; }
         const char* op = g_tok[0];
